@@ -57,7 +57,7 @@ def _gen(rng):
     nv = rng.randint(1, 3)
     vars_ = common.VARS[:nv]
     cfg = sg.GenCfg(vars=vars_, ops=common.DENSE_OFFLINE_OPS, max_depth=rng.randint(2, 4), max_bound=rng.choice([4, 8, 12]),
-                    p_reuse=rng.choice([0.0, 0.15]), allow_const_only=rng.random() < 0.25)
+                    p_reuse=rng.choice([0.0, 0.15]), allow_const_only=rng.random() < 0.25, p_loose=rng.choice([0.08, 0.3]))
     ast = sg.gen_formula(rng, cfg)
     used = sg.vars_of(ast)
     if not used:
@@ -67,7 +67,8 @@ def _gen(rng):
     fired = {}
     for v in vars_:
         s, f = world.gen_dense_signal(rng, rng.choice([1, 2, 3, 4, 5, 6, 7]), start_q=0 if zero else rng.randint(0, 6),
-                                      max_gap_q=rng.choice([2, 4, 8]))
+                                      max_gap_q=rng.choice([2, 4, 8]), resample_p=rng.choice([0.15, 0.4]),
+                                      style=rng.choice([None, None, 'ints']))
         signals[v] = s
         for k in f:
             fired[k] = fired.get(k, 0) + f[k]
